@@ -86,6 +86,8 @@ def model(ex, path, cal, recv, args, node, st):
             # foreign From impl (String from &str, Vec from VecDeque, anyhow::Error from E …): transparent
             return _val(st, app("conv", lit(cal.get("gargs", ["?"])[0] if name == "from" else (cal.get("gargs") or ["?", "?"])[-1]), a0)
                         if _lossy_conv(cal) else a0)
+    if d.split("::")[0] in ("serde_json", "serde_yaml", "serde_lexpr"):
+        return None          # format crates stay uninterpreted calls (C06 relates their inputs / outputs)
     if name in IDENTITY_NAMES and (recv is not None or len(allargs) == 1):
         return _val(st, allargs[0])
     if d in ("std::string::String::from", "std::borrow::ToOwned::to_owned", "std::string::ToString::to_string"):
